@@ -444,13 +444,13 @@ inductive Category where
   /-- the class overrides `_filter_passthrough_available` (its own legality theorem applies) -/
   | needsOwnCheck
   /-- nothing known: crossing is not justified -/
-  | opaque
+  | unclassified
 deriving DecidableEq, Repr
 
 /-- categories for which Props/C03.lean proves that a filter commutes with the operator -/
 def Category.filterCommuting : Category → Bool
   | .rowLocalValuePreserving | .reorder | .partitionOnly | .rowSelect => true
-  | .needsOwnCheck | .opaque => false
+  | .needsOwnCheck | .unclassified => false
 
 structure FlagEntry where
   cls : String
